@@ -366,7 +366,7 @@ func ocspHandlerFor(b ocspBehav, cert, issuer *Cert) (rtHandler, string) {
 		return func(*http.Request) (*http.Response, error) { return httpBody(200, ocsp.TryLaterErrorResponse) }, "UErr"
 	case "canned-sigrequired":
 		return func(*http.Request) (*http.Response, error) { return httpBody(200, ocsp.SigRequredErrorResponse) }, "UErr"
-	case "badurl", "scheme":
+	case "badurl", "scheme", "emptyurl", "blankurl":
 		return nil, "UBadURL"
 	}
 	panic("unknown ocsp behaviour " + b.Kind)
@@ -379,6 +379,10 @@ func ocspURL(ci, k int, kind string) string {
 		return fmt.Sprintf("http://a b\x7f/c%d/o%d", ci, k)
 	case "scheme":
 		return fmt.Sprintf("ldap://ocsp.test/c%d/o%d", ci, k)
+	case "emptyurl": // a responder URI that is the empty string: named, but unusable
+		return ""
+	case "blankurl":
+		return strings.Repeat(" ", 1+ci+4*k)
 	}
 	return fmt.Sprintf("http://ocsp.test/c%d/o%d", ci, k)
 }
